@@ -293,4 +293,17 @@ def c13_6(c: Ctx) -> None:
                    '(and the pending-events capacity check no longer counts it)')
 
 
+@ob('C13.7', 'WMW', 'the bound is the one the bus was built with: max_history_size is assigned by the constructor only (a temporary override that is saved and restored around a block is not '
+    'restored correctly when two such blocks overlap, and the bus keeps the wrong bound for good)')
+def c13_7(c: Ctx) -> None:
+    ws = [w for w in c.cg.all_writes('max_history_size') if w.unit.module in (SVC, MOD)]
+    c.floor(len(ws), 1, 'assignments of max_history_size')
+    for w in ws:
+        if w.unit.name == '__init__':
+            c.ok(where(w.unit, w.node), 'max_history_size set by the constructor')
+        else:
+            c.fail(w.unit, f'{w.unit.qualname} assigns max_history_size: {q.stmt_text(q.stmt_of(w.node), 60)}', 'the history bound of a live bus is changed after construction: history is no longer kept within the bound the '
+                   'bus was configured with', node=w.node)
+
+
 OBLIGATIONS = ob.obs
